@@ -505,8 +505,13 @@ package pipeline
 // next event of that stream, so a non-continuing event flushes the held run before
 // it can overtake it (C02 order, C15 flush rule).
 
+// C05: once the event has gone back to the pool (finalize with backEvent) it may
+// already belong to another reader: nothing in doActions reads it afterwards (the
+// sample watcher is fed before).
+
 //@ func (*processor).doActions
 //@   option allow-exit yes
+//@   ghost nback int = 0
 //@   ghost res int = 0
 //@   ghost nfin int = 0
 //@   requires event != nil && event.action >= 0
@@ -521,6 +526,7 @@ package pipeline
 //@     set res := r
 //@   callee finalize(e, notifyInput, backEvent)
 //@     requires e == event && nfin == 0
+//@     set nback := nback + ite(backEvent, 1, 0)
 //@     requires !notifyInput
 //@     requires res == ActionDiscard || res == ActionCollapse || res == ActionHold
 //@     requires backEvent == (res != ActionHold)
@@ -534,6 +540,7 @@ package pipeline
 //@   callee setEventBefore(i, e)
 //@     preserves processor
 //@   callee setEventAfter(i, e, s)
+//@     requires nback == 0
 //@     preserves processor
 //@   callee tryResetBusy(i)
 //@     requires 0 <= i && i < len(p.busyActions)
